@@ -33,3 +33,8 @@ pub fn sym_b() -> String { String::new() }
 /// doc text
 #[derive(TS)] pub struct D1<T> { /** field doc */ pub a: T }
 #[derive(TS)] pub struct D2<T> { pub a: T }
+#[derive(TS)] #[ts(export_to = sym_a())] pub struct E1 { pub a: i32 }
+#[derive(TS)] #[ts(export_to = "sub/dir/")] pub struct E2 { pub a: i32 }
+#[derive(TS)] pub struct E3 { pub a: i32 }
+#[derive(TS)] #[ts(export_to = "sub/file.ts")] pub struct E4 { pub a: i32 }
+#[derive(TS)] #[ts(export_to = sym_a(), rename = sym_b())] pub struct E5<T> { pub a: T }
